@@ -391,6 +391,7 @@ class Jacobian(probe.Probe):
         if not isinstance(variables, list):
             variables = [variables]
         self.variables = variables
+        operator.Operator.__init__(self, name=f"Jacobian({probe})", duration=None)
 
     def __repr__(self):
         return f"Jacobian({self.probe})"
@@ -433,6 +434,7 @@ class Hessian(probe.Probe):
 
         self.variables1 = variables1
         self.variables2 = variables2
+        operator.Operator.__init__(self, name=f"Hessian({probe})", duration=None)
 
     def __repr__(self):
         return f"Hessian({self.probe})"
